@@ -138,7 +138,7 @@ def install(spec: Spec):
 
     # ------------------------------------------------------------------ handler selection (C01, C07)
     # class invariant of registered handlers (established by EventBus.on's assert): plain functions have no __self__, bound methods do
-    spec.type_invariants = {'Handler': "(inspect.isfunction(x) or inspect.iscoroutinefunction(x) or inspect.ismethod(x)) and inspect.ismethod(x) == hasattr(x, '__self__')"}
+    spec.type_invariants['Handler'] = ("(inspect.isfunction(x) or inspect.iscoroutinefunction(x) or inspect.ismethod(x)) and inspect.ismethod(x) == hasattr(x, '__self__')")
     spec.define('is_forward', ['h'], "hasattr(h, '__self__') and isinstance(h.__self__, EventBus) and h.__name__ == 'dispatch'")
     spec.define('hid', ['bus', 'h'], "fmt2(id(bus), id(h))")
     spec.define('forward_seen', ['event', 'h'], "is_forward(h) and h.__self__.name in event.event_path")
